@@ -283,7 +283,7 @@ var c14Spacing = core.Mon(c14, "spacing", func(w *core.W, c *SpacingCase) {
 	src := []byte(ref.JoinLexemes(c.Lex, c.Sep))
 	var sc *formula.SourceCode
 	var err error
-	panicked, pv := core.Call(func() { sc, err = formula.ParseSourceCode(src) })
+	panicked, pv := core.Call(func() { sc, err = hostParse(src, true) })
 	if panicked {
 		w.Violation("spacing", "C14/escaped-panic", c, c.Base, fmt.Sprint(pv), "")
 		return
@@ -451,7 +451,7 @@ func runC14(w *core.W) {
 	layouts := w.Pick(6, 20)
 	for _, f := range progs {
 		base := []byte(ref.JoinLexemes(f.Lex, nil))
-		sc, err := formula.ParseSourceCode(base)
+		sc, err := hostParse(base, true)
 		if err != nil {
 			w.Violation("spacing", "C14/baseline-rejected", &SpacingCase{Lex: f.Lex}, "accepted", err.Error(), fmt.Sprintf("minimal layout rejected: %q", clipS(string(base), 200)))
 			continue
@@ -476,7 +476,7 @@ func runC14(w *core.W) {
 			sep[at[r.Intn(len(at))]] = gen.BreakSeps[r.Intn(len(gen.BreakSeps))]
 			src := []byte(ref.JoinLexemes(f.Lex, sep))
 			var err2 error
-			core.Call(func() { _, err2 = formula.ParseSourceCode(src) })
+			core.Call(func() { _, err2 = hostParse(src, true) })
 			w.Eval(1)
 			w.Count("postfix_break_cases")
 			if err2 == nil && ref.Parse(src).Verdict == ref.Reject {
